@@ -369,3 +369,7 @@ def replay(path):
         for w in res.printed("W"):
             print("FdTableTrace verdict: broken obligations %s, on /proc snapshot %s" % (w["bad"], w["snapbad"]))
     return 0
+
+
+def selftest():
+    return SJ.selftest_seeded("C12")
